@@ -103,6 +103,15 @@ def configs(thorough):
             C('redo a b c: b and c locked by others', 'C06 C09', targets=[b'a', b'b', b'c'], other_locks={b'b': 'built', b'c': 'failed'}),
             C('ifchange a b c (inherited, 1 token in pipe, 1 held by others)', 'C05 C08 C09', flavour='ifchange', targets=[b'a', b'b', b'c'],
               top_level=0, pipe0=1, others0=1),
+            C('redo a b c d -j2', 'C05 C07 C08 C09', targets=[b'a', b'b', b'c', b'd']),
+            C('redo -k a b c d -j3', 'C05 C07 C08', targets=[b'a', b'b', b'c', b'd'], keep_going=True, top_level=3, pipe0=2),
+            C('ifchange -k a b c: b failed earlier in this run', 'C05 C09', flavour='ifchange', targets=[b'a', b'b', b'c'], keep_going=True,
+              top_level=0, pipe0=1, prior={b'b': (FAILED_ROW, None)}),
+            C('redo a b c -j2: c locked by another redo, which builds it', 'C05 C06 C07 C09', targets=[b'a', b'b', b'c'],
+              other_locks={b'c': 'built'}),
+            C('ifchange a b c -j: b locked by another redo, which fails', 'C05 C06 C09', flavour='ifchange', targets=[b'a', b'b', b'c'],
+              top_level=0, pipe0=2, other_locks={b'b': 'failed'}),
+            C('redo a ./a b/../a', 'C07 C09', targets=[b'a', b'./a', b'b/../a']),
             C('ifchange a b: a is up to date', 'C05 C07', flavour='ifchange', top_level=0, pipe0=1, prior={b'a': (CLEAN_ROW, tuple(S1))}),
         ]
     return cs
@@ -143,10 +152,12 @@ def explore(chk, pid, scn=None):
     thorough = chk.thorough()
     CFGS = [c for c in configs(thorough) if pid in c['props']]
     only = os.environ.get('VERIF_ONLY')
+    if only and only.startswith('builder::run: '):
+        only = only[len('builder::run: '):]
     chk.bounds.setdefault('scheduler', {})
     chk.bounds['scheduler'] = {'configurations': [c['name'] for c in CFGS], 'max_wakeups_per_path': 12, 'select_timeouts_per_path': 1,
                                'child_exit_status': '0 or 1', 'select_macro_orders': 'written order; + <= 2 deviations per path in the '
-                               'configurations that say so (thorough)', 'targets_per_command': '<= 3'}
+                               'configurations that say so (thorough)', 'targets_per_command': '<= 3 (thorough: 4)'}
     for a in ASSUMPTIONS:
         if a not in chk.assumptions:
             chk.assumptions.append(a)
